@@ -179,6 +179,16 @@ def run_case(case):
                 tr, w, rd, bwd = J(lambda k, t, a: req.edit(k, t, a))(jax.random.key(seed), cur, ad)
                 obs = _obs_trace(tr, atys, rty, universe)
                 w = gfi._to_int(w)
+                if case.get("retag") and kind == "upd" and any(t == "N" for t in op[5]):
+                    # C08: an honest NoChange tag must not change the edit (switch indices excepted)
+                    tr_u, w_u, _, bwd_u = req.edit(jax.random.key(seed), cur, _tags_to_argdiffs(aj, ["U"] * len(atys)))
+                    o_u = _obs_trace(tr_u, atys, rty, universe)
+                    same = (o_u["choices"], o_u["score"], o_u["ret"], gfi._to_int(w_u)) == (obs["choices"], obs["score"], obs["ret"], w)
+                    if same and isinstance(bwd, Update) and isinstance(bwd_u, Update):
+                        same = gfi.observe_choices(bwd.constraint, universe)[0] == gfi.observe_choices(bwd_u.constraint, universe)[0]
+                    if not same:
+                        fails.append({"prop": "C08", "why": "tagging unchanged arguments NoChange instead of UnknownChange changed the edit",
+                                      "tags": op[5], "with_tags": [obs["score"], obs["ret"], w], "all_unknown": [o_u["score"], o_u["ret"], gfi._to_int(w_u)]})
                 fails += check_trace(obs, tr, kind)
                 res = {"ok": True, "tr": obs, "w": w}
                 # retdiff: primal + NoChange leaves (C08)
@@ -243,6 +253,55 @@ def run_case(case):
                         fails.append({"prop": "C10", "why": "project != sum of log-densities of the selected choices",
                                       "w": w, "want": want})
                 results.append({"ok": True, "w": w})
+            elif kind == "propose":
+                _, seed, args = op
+                aj = gfi.to_jax(args, ["tup", atys])
+                chm, sc, rv = J(gf.propose)(jax.random.key(seed), aj)
+                sc = gfi._to_int(sc)
+                rv = gfi.canon_val(gfi.from_jax(rv, rty))
+                ch, _ = gfi.observe_choices(chm, universe)
+                tr = gf.simulate(jax.random.key(seed), aj)   # C38: propose == simulate for the same key
+                o2 = _obs_trace(tr, atys, rty, universe)
+                if (ch, sc, rv) != (o2["choices"], o2["score"], o2["ret"]):
+                    fails.append({"prop": "C38", "why": "propose != (choices, score, retval) of simulate with the same key",
+                                  "propose": [sc, rv], "simulate": [o2["score"], o2["ret"]]})
+                results.append({"ok": True, "choices": ch, "w": sc, "ret": rv})
+            elif kind == "empty":
+                from genjax import Diff, EmptyRequest, Update
+
+                _, seed, args, tags = op
+                aj = gfi.to_jax(args, ["tup", atys])
+                ad = _tags_to_argdiffs(aj, tags)
+                old_obs = cur_obs
+                tr, w, rd, bwd = EmptyRequest().edit(jax.random.key(seed), cur, ad)
+                obs = _obs_trace(tr, atys, rty, universe)
+                w = gfi._to_int(w)
+                fails += check_trace(obs, tr, kind)
+                if all(t == "N" for t in tags):
+                    if w != 0 or obs["choices"] != old_obs["choices"] or obs["score"] != old_obs["score"] or obs["ret"] != old_obs["ret"]:
+                        fails.append({"prop": "C38", "why": "EmptyRequest with unchanged arguments is not the identity with weight 0", "w": w})
+                else:   # must equal an empty Update
+                    tr2, w2, _, _ = Update(gfi.build_cmap([])).edit(jax.random.key(seed), cur, ad)
+                    o2 = _obs_trace(tr2, atys, rty, universe)
+                    if (obs["choices"], obs["score"], obs["ret"], w) != (o2["choices"], o2["score"], o2["ret"], gfi._to_int(w2)):
+                        fails.append({"prop": "C38", "why": "EmptyRequest with changed arguments != Update(empty)"})
+                cur, cur_obs, last_bwd, last_edit = tr, obs, bwd, None
+                results.append({"ok": True, "tr": obs, "w": w})
+            elif kind == "subtrace":
+                _, addr = op
+                sub = cur.get_subtrace(*[a for a in [gfi._addr(addr)]])
+                sub_univ = [p[len(addr):] for p in universe if list(p[: len(addr)]) == list(addr)]
+                ch, _ = gfi.observe_choices(sub.get_choices(), sub_univ)
+                sc = gfi._to_int(sub.get_score()) if hasattr(sub.get_score(), "shape") and sub.get_score().shape == () else gfi._to_int(sub.get_score().sum())
+                want = {p[len(addr):]: v for p, v in cur_obs["choices"].items() if list(p[: len(addr)]) == list(addr)}
+                if ch != want:   # C34
+                    fails.append({"prop": "C34", "why": "subtrace choices != parent's sub-map at the address",
+                                  "sub": {str(k): v for k, v in ch.items()}, "want": {str(k): v for k, v in want.items()}})
+                if cur_obs.get("_sites") is not None:
+                    share = sum(site_lp(s_) for s_ in cur_obs["_sites"] if list(s_[0][: len(addr)]) == list(addr))
+                    if sc != share:
+                        fails.append({"prop": "C34", "why": "subtrace score != that call's share of the parent's score", "score": sc, "want": share})
+                results.append({"ok": True, "w": sc, "choices": ch})
             else:
                 raise ValueError(op)
         except gfi.NotIntegral as e:
